@@ -64,6 +64,16 @@ def run(ck):
         tcases.append(K.htree_case(ch, exact=int(r.random() < 0.3), scripting=int(r.random() < 0.5), srcdoc=int(r.random() < 0.2),
                                    quirks=r.choice([0, 0, 1, 2]), dropdt=int(r.random() < 0.2), ctx=r.choice(ctxs)))
         tcases.append(K.xtree_case(ch, exact=int(r.random() < 0.3)))
+    # fragment parsing: end tags (and start tags) of the context element itself and of the table / template / select
+    # family, followed by more input - the open-element stack is nearly empty there and "pop until" rules meet the root
+    for ctx in ctxs:
+        if not ctx:
+            continue
+        name = ctx.split(":")[1]
+        for nm in {name, "template", "table", "select", "body", "html", "td", "p"}:
+            for tail in ["x", "<p>y", "<!--c-->z", " ", "</%s>w" % nm, "<%s>v" % nm]:
+                tcases.append(K.htree_case(["</%s>%s" % (nm, tail)], ctx=ctx))
+                tcases.append(K.htree_case(["<%s></%s></%s>%s" % (nm, nm, nm, tail)], ctx=ctx, scripting=int(r.random() < 0.5)))
     for s in deep_inputs(ck):
         tcases.append(K.htree_case([s]))
         tcases.append(K.htree_case([s], ctx="html:div"))
